@@ -25,6 +25,10 @@ static const char* err_name(Error e) {
     case Error::kInvalidOperandSize: return "InvalidOperandSize";
     case Error::kExpressionLabelNotBound: return "ExpressionLabelNotBound";
     case Error::kInvalidAddress64Bit: return "InvalidAddress64Bit";
+    case Error::kNoCodeGenerated: return "NoCodeGenerated";
+    case Error::kInvalidLabelName: return "InvalidLabelName";
+    case Error::kLabelNameTooLong: return "LabelNameTooLong";
+    case Error::kLabelAlreadyDefined: return "LabelAlreadyDefined";
     default: break;
   }
   static char buf[32];
@@ -39,6 +43,8 @@ struct Prog {
   BaseAssembler* a = nullptr;
   int arch = 0;  // 0 = x86, 1 = x64, 2 = a64
   uint32_t nsec = 1;
+  std::unique_ptr<JitRuntime> rt;   // `jitadd`: a fresh runtime per program (fill pattern 0xCC so that untouched span bytes are known)
+  void* fn = nullptr;
 };
 
 static std::unique_ptr<Prog> P;
@@ -81,6 +87,18 @@ static std::string step(const std::string& line) {
   if (op == "newlabel" && w.size() == 1) {
     a->new_label();
     return answer(Error::kOk);
+  }
+  if ((op == "newnamed" || op == "byname") && w.size() == 2) {
+    // `-` = the empty name, `@n` = a name of n letters
+    std::string name = w[1];
+    if (name == "-") name.clear();
+    else if (name[0] == '@') name = std::string(size_t(atoi(name.c_str() + 1)), 'a');
+    if (op == "newnamed") {
+      uint32_t id = Globals::kInvalidId;
+      return answer(code.new_named_label_id(Out(id), name.data(), name.size(), LabelType::kGlobal));
+    }
+    uint32_t id = code.label_id_by_name(name.data(), name.size());
+    return id == Globals::kInvalidId ? std::string("id=invalid") : "id=" + std::to_string(id);
   }
   if (op == "newsection" && w.size() == 3) {
     int64_t order;
@@ -152,6 +170,9 @@ static std::string step(const std::string& line) {
     else if (w[1] == "ldeax") e = x->mov(x86::eax, x86::dword_ptr(L, d));
     else if (w[1] == "steax") e = x->mov(x86::dword_ptr(L, d), x86::eax);
     else if (w[1] == "ldrax") e = x->mov(x->zax(), x86::ptr(L, d));
+    else if (w[1] == "fsmov") { x86::Mem m = x86::dword_ptr(L, d); m.set_segment(x86::fs); e = x->mov(x86::ecx, m); }
+    else if (w[1] == "gsldeax") { x86::Mem m = x86::dword_ptr(L, d); m.set_segment(x86::gs); e = x->mov(x86::eax, m); }
+    else if (w[1] == "fsaddi8") { x86::Mem m = x86::dword_ptr(L, d); m.set_segment(x86::fs); e = x->add(m, 0x12); }
     else return "bad-op";
     return answer(e);
   }
@@ -175,6 +196,9 @@ static std::string step(const std::string& line) {
     else if (w[1] == "ldeax") e = x->mov(x86::eax, M(4));
     else if (w[1] == "steax") e = x->mov(M(4), x86::eax);
     else if (w[1] == "ldrax") e = x->mov(x->zax(), M(0));
+    else if (w[1] == "fsmov") { x86::Mem m = M(4); m.set_segment(x86::fs); e = x->mov(x86::ecx, m); }
+    else if (w[1] == "gsldeax") { x86::Mem m = M(4); m.set_segment(x86::gs); e = x->mov(x86::eax, m); }
+    else if (w[1] == "fsaddi8") { x86::Mem m = M(4); m.set_segment(x86::fs); e = x->add(m, 0x12); }
     else return "bad-op";
     return answer(e);
   }
@@ -232,6 +256,38 @@ static std::string step(const std::string& line) {
     sum.code_size_reduction = 0;
     Error e = code.relocate_to_base(u0, &sum);
     return answer(e) + " " + std::to_string(e == Error::kOk ? sum.code_size_reduction : 0);
+  }
+  if (op == "jitadd" && w.size() == 1) {
+    // the real JitRuntime::add(): flatten, resolve, allocate, relocate_to_base(rx), copy. Answer: the rx pointer, the final
+    // code size and the bytes found at rx. On failure the span was released again: `probe=` is the address the (deterministic)
+    // allocator hands out for the same request, i.e. the base relocate_to_base was called with.
+    JitAllocator::CreateParams params;
+    params.options = JitAllocatorOptions::kFillUnusedMemory | JitAllocatorOptions::kCustomFillPattern;
+    params.fill_pattern = 0xCCCCCCCCu;
+    P->rt.reset(new JitRuntime(&params));
+    P->fn = nullptr;
+    Error e = P->rt->add(&P->fn, &code);
+    if (e == Error::kOk) {
+      size_t n = code.code_size();
+      return answer(e) + " " + vh::to_hex(uint64_t(uintptr_t(P->fn))) + " " + std::to_string(n) + " " +
+             (n ? vh::bytes_to_hex(static_cast<const uint8_t*>(P->fn), n) : std::string("-"));
+    }
+    uint64_t probe = 0;
+    size_t est = code.code_size();
+    if (est != 0 && est < (size_t(1) << 28)) {
+      JitAllocator::Span span;
+      if (P->rt->allocator().alloc(Out(span), est) == Error::kOk) {
+        probe = uint64_t(uintptr_t(span.rx()));
+        P->rt->allocator().release(span.rx());
+      }
+    }
+    return answer(e) + " probe=" + vh::to_hex(probe);
+  }
+  if (op == "jitrelease" && w.size() == 1) {
+    if (!P->rt) return "no-runtime";
+    Error e = P->rt->release(P->fn);
+    P->fn = nullptr;
+    return answer(e) + " live=" + std::to_string(P->rt->allocator().statistics().allocation_count());
   }
   if (op == "dump" && w.size() == 1) {
     std::string o = "dump cnt=" + std::to_string(code.unresolved_fixup_count());
